@@ -235,6 +235,7 @@ type World struct {
 	corruptStore     bool
 	jwksBusy         bool
 	k8sFailNext      int
+	downAtBootDone   bool
 	k8sInReconcile   bool
 	FaultsOff        bool
 	stall            *stallCtl
@@ -513,7 +514,23 @@ func (w *World) bootReplica(idx int) *Replica {
 	// before the first request; this also keeps the start-up order deterministic
 	time.Sleep(time.Microsecond)
 	r.sessions = oidc.NewSessionStoreFactory(r.cfg)
-	if err := r.sessions.PreRun(); err != nil {
+	var downSrv *miniredis.Miniredis
+	if w.Spec.RedisDownAtBoot != "" && !w.downAtBootDone {
+		w.downAtBootDone = true
+		if downSrv = penv.server(w.Spec.RedisDownAtBoot); downSrv != nil {
+			runOutside(downSrv.Close)
+			w.countFault("redis-unreachable-at-start-up")
+		}
+	}
+	err := r.sessions.PreRun()
+	if downSrv != nil {
+		var rerr error
+		runOutside(func() { rerr = downSrv.Restart() })
+		if rerr != nil {
+			panic("sim: cannot restart miniredis: " + rerr.Error())
+		}
+	}
+	if err != nil {
 		r.BootErr = fmt.Errorf("%w: sessions: %v", errBoot, err)
 		return r
 	}
